@@ -410,22 +410,9 @@ def generate(c):
     return cases, dist
 
 
-def _private_target():
-    """cargo's freshness test is mtime-based relative to the package root, so one target dir shared between
-    source trees reuses stale binaries (observed: /repo run with the worktree's binary and vice versa).
-    Until vplib separates them: one target dir per checked tree for this property's runs."""
-    import hashlib
-    if getattr(vplib, "TARGET_PER_TREE", False):
-        return
-    rp = os.path.realpath(vplib.REPO)
-    if rp != "/repo":
-        vplib.TARGET = os.path.join(vplib.CACHE, "target_alt_" + hashlib.sha1(rp.encode()).hexdigest()[:8])
-
-
 def main():
     c = vplib.Check("C32")
     c.run_gate()
-    _private_target()
     cases, dist = generate(c)
     ntp = [x for x in cases if x["op"] not in PTP_OPS]
     ptp = [x for x in cases if x["op"] in PTP_OPS]
@@ -433,7 +420,9 @@ def main():
                      "the cross product of the boundary sets {0, MIN, MAX, +-2^k + {-1,0,1}} (timestamps x timestamps, durations x "
                      "durations, durations x every scalar type's boundary values), PollInterval inc/dec exhaustively over all 256 "
                      "values x a grid of limit pairs, random values of every magnitude class, float conversions on a sign x exponent x "
-                     "mantissa sweep of bit patterns and on boundary/small/random durations. non-trivial = some argument non-zero")
+                     "mantissa sweep of bit patterns and on boundary/small/random durations, with a dense stream around the known-finding "
+                     "class of the seconds round trip. The quick tier runs the corpus and every 3rd case of this grid, the thorough "
+                     "tier the whole grid on all powers of two. non-trivial = some argument non-zero")
     c.cov["exhaustive"] = False
 
     def nontrivial(case, out):
@@ -494,10 +483,12 @@ MANIFEST = {
             "PollInterval inc/dec/force_inc/as_duration stay in range (C32_poll); the same wrapping/saturating laws for the 128-bit "
             "PTP types incl. saturating_div (C32_ptp). On the bit-exact binary64 model, for every 64-bit pattern: from_seconds "
             "saturates to i64::MAX/MIN for |x| >= 2^31 s and +-inf (C32_from_seconds_saturates) and preserves the sign of every "
-            "finite double, never leaving the i64 range (C32_from_seconds_sign). PARTIAL: the seconds round-trip bound "
-            "(< 1e-9 |d| + 1 unit) is proved for the exact-arithmetic version of to_seconds;from_seconds (C32_roundtrip_partial); "
-            "for the binary64 model it is only monitored at run time on the swept durations (the four roundings are not bounded "
-            "by a theorem).",
+            "finite double, never leaving the i64 range (C32_from_seconds_sign). REFUTED / KNOWN FINDING: the seconds round-trip "
+            "bound (< 1e-9 |d| + 1 unit) is false for the code: d = -2100223 comes back as d - 2 (C32_roundtrip_refuted, "
+            "witness evaluated on the bit-exact model and replayed on the implementation every run); all failing durations "
+            "found lie in KnownClass_C32_roundtrip = (-10^9, -2^21] units. PARTIAL: outside that class the bound is proved only "
+            "for the exact-arithmetic version of to_seconds;from_seconds (C32_roundtrip_partial); for the binary64 model it is "
+            "monitored at run time on the swept durations (a failure outside the class is a VIOLATION).",
     "note": "Trusted: Coq kernel+vm_compute; hand-written models coq/Model/TimeTypes.v, FloatConv.v (binary64 via Coq's SpecFloat "
             "functions, no axioms), TimeRun.v; harnesses in ntp-proto and statime-base + python driver; release semantics of the "
             "harness build. Requires the fix branch fix-c32 (saturating neg/abs/div, PollInterval inc/dec); on the tree without it "
